@@ -18,7 +18,10 @@ PROPS["C12"] = dict(
                "role combined with the helper role are not generated.",
     technique="runtime model-based monitor: ListPath ADJ_IN/GLOBAL (presence, stale flag, LLGR_STALE, best path), ListPeer PeerRestarting and the "
               "observers' accumulated wire view, sampled at t-1ms and t around every model timer and after every event, compared with c12Model",
-    rule="case = one scenario (helper role 5/6: up to three losses of R with everything that follows; restarting role 1/6: 2-4 neighbours with "
+    rule="violation keys are c12:[after-capability-change:|after-earlier-llgr-phase:]<rule of the model that removed / keeps the route or lifecycle phase>:<what differs>; "
+         "the optional context names scenarios in which the peer changed its GR/LLGR capabilities between sessions resp. the restart follows an "
+         "earlier long-lived phase of the same peer (state gobgp carries across sessions). "
+         "case = one scenario (helper role 5/6: up to three losses of R with everything that follows; restarting role 1/6: 2-4 neighbours with "
          "their own establishment / End-of-RIB times and a deferral time of 3-11 s); non-trivial iff at least one route was observed stale "
          "(helper) or at least one sample saw advertisements being withheld (restarting); distinct by (capability combination of both sides + "
          "restart-time class, loss kind, reconnection bucket) resp. (per-neighbour flags, release kind)",
